@@ -145,6 +145,9 @@ CHECKS = {
             "messages are what the real primary produces: pushes recorded from Primary.StreamWAL's session while the history is written, polls/resends/initial entries through Primary.VerifEntriesFrom; the schedule may cut a message short, drop one inner entry, re-encode payloads with zstd/snappy, duplicate, delay, reorder and drop messages",
             "the primary history is written by one client with the background flush quiesced between steps; a replica process restart is outside this check (C14)",
             "a data moment is the return of WALEntryApplier.Apply; a re-application of the entry applied last (in order, idempotent) is tolerated",
+            "loop class (about 1 case in 50): the real replica state machine (Start, 50 ms ticks, error state, backoff with RetryBaseDelay 1 ms / RetryMaxDelay 2 ms, reconnect) against an in-process primary that answers every StreamWAL request from the requested sequence with the real Primary's entries in messages of generated sizes; the history is written before the replica connects",
+            "the applier's transient failures are keyed by sequence number (a refused apply has no effect)",
+            "loop class: not converging within 20 s is counted, not judged",
         ],
     },
     "C14": {
